@@ -4,6 +4,7 @@ from __future__ import annotations
 import asyncio
 import itertools
 import json
+import os
 from typing import Any, Dict, List, Optional, Tuple
 
 import anyio
@@ -129,6 +130,36 @@ def classify_case(stream: bytes, cuts: List[int], info: List[Dict[str, Any]]) ->
     return bool(cut_in_char or cut_in_crlf or junk_between or sep_in_string), tuple(classes)
 
 
+def _lenient_sig(extras: List[Any], info: List[Dict[str, Any]]) -> str:
+    """root cause of 'something was delivered that is not a valid line': which kind of junk was accepted"""
+    sig = "junk-delivered-as-message"
+    sigs = []
+    for e in extras:
+        for rec in info:
+            v = rec.get("value")
+            if rec["valid"] or not isinstance(v, dict):
+                continue
+            if not (strict_eq(e, v) or strict_eq(e, {"jsonrpc": "2.0", **v})):
+                continue
+            if not any(k in v for k in ("method", "result", "error")):
+                sigs.append("object-that-is-no-message-delivered")
+            elif "jsonrpc" not in v:
+                sigs.append("object-without-jsonrpc-member-delivered-as-message")
+            elif v.get("jsonrpc") != "2.0":
+                sigs.append("object-with-wrong-jsonrpc-version-delivered-as-message")
+            elif isinstance(v.get("error"), dict):
+                sigs.append("malformed-error-object-delivered-as-message")
+            else:
+                sigs.append("envelope-invalid-object-delivered-as-message")
+            break
+    if sigs:
+        # one root cause per report: prefer the rarer classes so they are not masked
+        order = ["object-that-is-no-message-delivered", "malformed-error-object-delivered-as-message", "envelope-invalid-object-delivered-as-message",
+                 "object-with-wrong-jsonrpc-version-delivered-as-message", "object-without-jsonrpc-member-delivered-as-message"]
+        sig = sorted(set(sigs), key=order.index)[0]
+    return sig
+
+
 def run_library(stream: bytes, cuts: List[int], as_str: bool, probe: bool) -> Dict[str, Any]:
     from chuk_mcp.transports.stdio.stdio_client import StdioClient
 
@@ -184,6 +215,8 @@ def check(case: Dict[str, Any]) -> Outcome:
         from ..fuzz.job import check_fuzz_case
 
         return check_fuzz_case(case)
+    if case.get("real"):
+        return check_real(case)
     out = Outcome()
     stream: bytes = case["stream"]
     cuts: List[int] = sorted(case.get("cuts", []))
@@ -235,31 +268,7 @@ def check(case: Dict[str, Any]) -> Outcome:
         elif probe and not alive:
             sig = "reader-stopped-before-end-of-stream"
         elif extras and not missing:
-            sig = "junk-delivered-as-message"
-            sigs = []
-            for e in extras:
-                for rec in info:
-                    v = rec.get("value")
-                    if rec["valid"] or not isinstance(v, dict):
-                        continue
-                    if not (strict_eq(e, v) or strict_eq(e, {"jsonrpc": "2.0", **v})):
-                        continue
-                    if not any(k in v for k in ("method", "result", "error")):
-                        sigs.append("object-that-is-no-message-delivered")
-                    elif "jsonrpc" not in v:
-                        sigs.append("object-without-jsonrpc-member-delivered-as-message")
-                    elif v.get("jsonrpc") != "2.0":
-                        sigs.append("object-with-wrong-jsonrpc-version-delivered-as-message")
-                    elif isinstance(v.get("error"), dict):
-                        sigs.append("malformed-error-object-delivered-as-message")
-                    else:
-                        sigs.append("envelope-invalid-object-delivered-as-message")
-                    break
-            if sigs:
-                # one root cause per report: prefer the rarer classes so they are not masked
-                order = ["object-that-is-no-message-delivered", "malformed-error-object-delivered-as-message", "envelope-invalid-object-delivered-as-message",
-                         "object-with-wrong-jsonrpc-version-delivered-as-message", "object-without-jsonrpc-member-delivered-as-message"]
-                sig = sorted(set(sigs), key=order.index)[0]
+            sig = _lenient_sig(extras, info)
         elif missing and not extras:
             sig = "valid-line-not-delivered"
         elif same(sorted(map(json.dumps, got)), sorted(map(json.dumps, want))):
@@ -386,13 +395,86 @@ def job_long(col: Collector, seed: int, tier: str, shard: int, n: int) -> None:
     hyp_run(col, seed * 1000 + 300 + shard, c(), check, n)
 
 
+REAL_WRITER = r'''
+import sys, os, json, time
+spec = json.load(open(sys.argv[1]))
+for hx in spec["chunks"]:
+    os.write(1, bytes.fromhex(hx))
+    time.sleep(0.003)
+# stay alive until the client closes our stdin
+sys.stdin.read()
+'''
+
+
+def check_real(case: Dict[str, Any]) -> Outcome:
+    """Same oracle, but the bytes come from a real child process through real pipes (the OS decides
+    the read boundaries; the generated cuts are the child's write boundaries)."""
+    import shutil
+    import sys
+    import tempfile
+
+    import anyio as _anyio
+
+    from chuk_mcp.transports.stdio.parameters import StdioParameters
+    from chuk_mcp.transports.stdio.stdio_client import StdioClient
+
+    out = Outcome()
+    stream: bytes = case["stream"]
+    cuts = sorted(c for c in case.get("cuts", []) if 0 < c < len(stream))
+    expected, info, has_tail = reference(stream)
+    if has_tail:
+        stream = stream + b"\n"
+        expected, info, has_tail = reference(stream)
+    out.nontrivial, out.classes = classify_case(stream, cuts, info)
+    out.classes = out.classes + ("real-child",)
+    d = tempfile.mkdtemp(prefix="vpbt_c05_")
+    try:
+        pos = [0] + cuts + [len(stream)]
+        chunks_ = [stream[a:b] for a, b in zip(pos, pos[1:]) if b > a] + [PROBE_LINE]
+        with open(os.path.join(d, "w.py"), "w") as fh:
+            fh.write(REAL_WRITER)
+        with open(os.path.join(d, "spec.json"), "w") as fh:
+            json.dump({"chunks": [c.hex() for c in chunks_]}, fh)
+        got: List[Any] = []
+
+        async def main():
+            async with StdioClient(StdioParameters(command=sys.executable, args=[os.path.join(d, "w.py"), os.path.join(d, "spec.json")])) as client:
+                r, _w = client.get_streams()
+                with _anyio.move_on_after(10):
+                    async for m in r:
+                        v = m.model_dump(exclude_none=True) if hasattr(m, "model_dump") else m
+                        got.append(v)
+                        if strict_eq(v, PROBE):
+                            break
+
+        _anyio.run(main)
+        want = list(expected) + [PROBE]
+        if len(got) != len(want) or not all(strict_eq(a, b) for a, b in zip(got, want)):
+            alive = bool(got) and strict_eq(got[-1], PROBE)
+            sig = "real-child:reader-stopped-before-end-of-stream" if not alive else "real-child:delivered-sequence-differs-from-lines"
+            extras = [g for g in got if not any(strict_eq(g, w_) for w_ in want)]
+            missing = [w_ for w_ in want if not any(strict_eq(g, w_) for g in got)]
+            if alive and extras and not missing:
+                sig = _lenient_sig(extras, info)
+            out.fail(sig, f"cuts={cuts} got={json.dumps(got)[:300]} want={json.dumps(want)[:300]}")
+    finally:
+        shutil.rmtree(d, ignore_errors=True)
+    return out
+
+
+def job_real(col: Collector, seed: int, tier: str, shard: int, n: int) -> None:
+    import os as _os
+
+    hyp_run(col, seed * 1000 + 600 + shard, cases(5).map(lambda c: dict(c, real=True, as_str=False)), check, n)
+
+
 def job_atheris(col: Collector, seed: int, tier: str, seconds: int, corpus: str) -> None:
     from ..fuzz.job import run_fuzz_job
 
     run_fuzz_job(col, "stdio", seconds, seed, corpus)
 
 
-JOBS = {"atheris": job_atheris, "hyp": job_hyp, "exhaustive": job_exhaustive, "long": job_long}
+JOBS = {"real": job_real, "atheris": job_atheris, "hyp": job_hyp, "exhaustive": job_exhaustive, "long": job_long}
 
 
 def jobs(tier: str):
@@ -405,6 +487,7 @@ def jobs(tier: str):
         + [("long", {"shard": s, "n": 300}) for s in range(2)]
     )
         + [("atheris", {"seconds": 150, "corpus": "seeded"}), ("atheris", {"seconds": 150, "corpus": "empty"})]
+        + [("real", {"shard": s, "n": 40}) for s in range(4)]
     )
 
 
